@@ -38,13 +38,15 @@ Lemma bulk_all_step c cs us a :
   NoDup (map fst us) -> lookup (c_name c) us = Some a ->
   bulk_all cs (replace (c_name c) (add1 a c) us) = bulk_all (c :: cs) us.
 Proof.
-  intros Hnd Ea. induction us as [|[k b] t IH]; cbn in *; [discriminate|].
-  inversion Hnd as [|? ? Hk Ht]; subst.
+  intros Hnd Ea. induction us as [|[k b] t IH]; [discriminate|].
+  cbn [map fst] in Hnd. inversion Hnd as [|? ? Hk Ht]; subst.
+  cbn [lookup] in Ea. cbn [replace].
   destruct (Z.eqb (c_name c) k) eqn:E.
-  - injection Ea as ->. apply Z.eqb_eq in E. cbn [map fst snd]. f_equal.
-    + cbn [mine filter]. rewrite (proj2 (Z.eqb_eq _ _) E). reflexivity.
-    + fold (bulk_all cs t). fold (bulk_all (c :: cs) t). symmetry. apply bulk_all_skip. rewrite E. exact Hk.
-  - cbn [map fst snd]. f_equal.
+  - injection Ea as ->. unfold bulk_all. cbn [map fst snd]. f_equal.
+    + cbn [mine filter]. rewrite E. reflexivity.
+    + change (bulk_all cs t = bulk_all (c :: cs) t). symmetry. apply bulk_all_skip.
+      apply Z.eqb_eq in E. rewrite E. exact Hk.
+  - unfold bulk_all. cbn [map fst snd]. f_equal.
     + cbn [mine filter]. rewrite E. reflexivity.
     + apply IH; assumption.
 Qed.
@@ -75,12 +77,16 @@ Lemma bulk_fields cs : forall a,
   cpos RN (bulk a cs) = match poss cs with [] => cpos RN a | _ => None end /\
   cneg RN (bulk a cs) = match negs cs with [] => cneg RN a | _ => None end.
 Proof.
-  induction cs as [|[[k p] n] cs IH]; intros a; cbn [bulk fold_left poss negs flat_map].
-  - rewrite !app_nil_r. repeat split.
-  - destruct (IH (add1 a (k, p, n))) as (H1 & H2 & H3 & H4 & H5 & H6).
-    unfold bulk in *. rewrite H1, H2, H3, H4, H5, H6. unfold add1. cbn [fst snd].
-    destruct p as [tp|], n as [tn|]; cbn; rewrite <- ?app_assoc; cbn;
-      repeat split; auto; destruct (flat_map _ cs); reflexivity.
+  induction cs as [|[[k p] n] cs IH]; intros a.
+  - cbn. rewrite !app_nil_r. repeat split.
+  - change (bulk a ((k, p, n) :: cs)) with (bulk (add1 a (k, p, n)) cs).
+    destruct (IH (add1 a (k, p, n))) as (H1 & H2 & H3 & H4 & H5 & H6).
+    rewrite H1, H2, H3, H4, H5, H6. clear.
+    unfold add1, poss, negs. cbn [fst snd flat_map].
+    destruct p as [tp|], n as [tn|];
+      cbn [add_pos add_neg set_pos_parts set_neg_parts apos aneg ared abind cpos cneg app];
+      rewrite <- ?app_assoc; cbn [app]; repeat split;
+      try (match goal with |- context [match ?l with [] => _ | _ :: _ => _ end] => destruct l end; reflexivity).
 Qed.
 
 Lemma perm_nil_match {A B} (l l' : list A) (x y : B) :
@@ -136,7 +142,7 @@ Qed.
 Lemma replace_us_perm nm a a' us us' :
   us_perm us us' -> acc_perm a a' -> us_perm (replace nm a us) (replace nm a' us').
 Proof.
-  intros H P. induction H as [|[k b] [k' b'] t t' [E Q] _ IH]; cbn in *; [constructor|]. subst k'.
+  intros H P. induction H as [|[k b] [k' b'] t t' [E Q] Ht IH]; cbn in *; [constructor|]. subst k'.
   destruct (Z.eqb nm k); constructor; cbn; auto.
 Qed.
 Lemma all_sym_replace nm a a' us :
